@@ -428,6 +428,28 @@ pub fn ack_position_sweep(ctx: &Ctx, report: &mut refcodec::evidence::Report, sc
             let final_variant = sd.finals.first().copied().unwrap_or_else(|| refcodec::tables::reply_enum(sd.replies).variants[0].0);
             let mut carry_on = ACK.to_vec();
             carry_on.extend(pools.pick(&mut rng, variant_key(sd, final_variant)).0.iter());
+            // a positive acknowledgement that carries a data block (80 00 with a body that looks like a final reply, short
+            // and extended length form): one packet - its body is not the reply
+            if shard == 0 {
+                let final_bytes = carry_on[3..].to_vec();
+                for ack in [vec![0x80u8, 0x00, 0x03, 0x06, 0x0f, 0x00], vec![0x80, 0x00, 0x04, 0x06, 0x1e, 0x01, 0x6c], vec![0x80, 0x00, 0xff, 0x03, 0x00, 0x06, 0x0f, 0x00], vec![0x80, 0x00, 0x03, 0x80, 0x00, 0x00]] {
+                    let term = Term::new(Script::new(vec![Entry { bytes: ack.clone(), gate: cmd.len() }, Entry { bytes: final_bytes.clone(), gate: cmd.len() }]));
+                    r.case_enumerated(true);
+                    r.count("ack_with_data_block_cases", 1);
+                    let res = run_stream(sd.name, &cmd, &term, None);
+                    let st = term.0.lock().unwrap();
+                    let oks = st.log.iter().filter(|e| matches!(e, Ev::Yield { ok: true, .. })).count();
+                    let errs = st.log.iter().filter(|e| matches!(e, Ev::Yield { ok: false, .. })).count();
+                    let due = ack.len() + final_bytes.len();
+                    let case = || json!({"kind": "ack-with-data-block", "stream": sd.name, "acknowledgement": hex(&ack), "reply": hex(&final_bytes[..final_bytes.len().min(24)]), "yielded_ok": oks, "yielded_err": errs, "bytes_delivered": st.delivered, "bytes_due": due});
+                    if matches!(res, Err(ref p) if p.starts_with("PANIC")) {
+                        r.violation(&format!("{id} {} stream panics on an acknowledgement with a data block", sd.name), &format!("{res:?}"), case());
+                    } else if errs == 0 && (oks != 1 || st.delivered != due) {
+                        // (rejecting such an acknowledgement is fine: one error; accepting it means the reply behind it is the reply)
+                        r.violation(&format!("{id} {} stream: the data block of an acknowledgement is taken for a reply", sd.name), &format!("acknowledgement {} then the final reply: {oks} items, {} of {due} bytes consumed", hex(&ack), st.delivered), case());
+                    }
+                }
+            }
             let mut cf = shard as u32;
             while cf < 65536 {
                 let (c, i) = ((cf >> 8) as u8, cf as u8);
